@@ -134,6 +134,12 @@ def run_kernel_property(pid, tier, crate: K.KaniCrate, harnesses, *, timeout_s, 
 
 def replay_kernel(pid, path):
     """Rebuild the stored crate (with the generated #[test]) against the current /repo and run it."""
+    cj = os.path.join(path, "case.json")
+    if os.path.exists(cj):
+        import json
+        if json.load(open(cj)).get("engine") == "symdrive":
+            from . import e3
+            return e3.replay_case(path)
     d = os.path.join(K.workdir(), "replay_crate")
     if os.path.isdir(os.path.join(path, "src")):
         shutil.copytree(os.path.join(path, "src"), os.path.join(d, "src"), dirs_exist_ok=True)
